@@ -207,11 +207,18 @@ theorem replay_rejected_later (env : Env) (c : Chain) (ms ms2 : List (UInt64 × 
 /-! ### effects -/
 def cbCount (k : Bytes) (c : Chain) : Nat := c.evm.count (.recvCallback k)
 
-/-- one step: the receive callback of key `k` is invoked only inside an accepted receive of `k`, once. -/
+/-- the callback outcome carried by a receive message -/
+def callbackOf : Msg → Option Callback
+  | .recvPacket _ _ _ _ cb => some cb
+  | _ => none
+
+/-- one step: the effects of the receive callback of key `k` are committed only inside an accepted receive of `k`,
+once, and only if CallPacket succeeded with result code 0 (`Callback.committed`). -/
 theorem deliver_cbCount (env : Env) (c : Chain) (now : UInt64) (m : Msg) (k : Bytes) :
     cbCount k (deliver env c now m).1 =
       cbCount k c ∨
-    (cbCount k (deliver env c now m).1 = cbCount k c + 1 ∧ (deliver env c now m).2 = .ok ∧ recvKeyOf env m = some k) := by
+    (cbCount k (deliver env c now m).1 = cbCount k c + 1 ∧ (deliver env c now m).2 = .ok ∧ recvKeyOf env m = some k ∧
+      ∃ cb, callbackOf m = some cb ∧ cb.committed = true) := by
   rcases deliver_cases env c now m with ⟨c', hh, hd⟩ | ⟨e, _, hd⟩
   · rw [hd]
     cases m with
@@ -222,9 +229,12 @@ theorem deliver_cbCount (env : Env) (c : Chain) (now : UInt64) (m : Msg) (k : By
       | relayed _ _ _ _ hevm _ => left; simp [cbCount, hevm]
       | acked ackBz _ _ _ _ _ hwhich =>
         rcases hwhich with ⟨_, _, hevm⟩ | ⟨_, _, _, hevm⟩
-        · by_cases hk : receiptKey (env.decodePacket packet).1 = k
-          · right; subst hk; exact ⟨by simp [cbCount, hevm], rfl, rfl⟩
-          · left; simp [cbCount, hevm, hk]
+        · cases hcm : cb.committed with
+          | false => left; simp [cbCount, hevm, hcm]
+          | true =>
+            by_cases hk : receiptKey (env.decodePacket packet).1 = k
+            · right; subst hk; exact ⟨by simp [cbCount, hevm, hcm], rfl, rfl, cb, rfl, hcm⟩
+            · left; simp [cbCount, hevm, hcm, hk]
         · left; simp [cbCount, hevm]
     | acknowledgement packet ack proof h signer o =>
       left
@@ -256,7 +266,7 @@ theorem effects_at_most_once (env : Env) (c : Chain) (ms : List (UInt64 × Msg))
       rw [run_cons, acceptedCount_cons]
       dsimp only
       have ih' := ih (deliver env c now m).1
-      rcases deliver_cbCount env c now m k with he | ⟨he, hok, hkey⟩
+      rcases deliver_cbCount env c now m k with he | ⟨he, hok, hkey, _⟩
       · rw [he] at ih'; constructor <;> omega
       · have : acceptedRecvOf env k ((deliver env c now m).2, (now, m)) = true := by
           simp [acceptedRecvOf, hok, hkey]
@@ -268,6 +278,17 @@ theorem effects_at_most_once (env : Env) (c : Chain) (ms : List (UInt64 × Msg))
   simp at hb
   have := hgrow ms c
   omega
+
+/-- **callback effects are all-or-nothing**: a receive whose callback failed (CallPacket error) or reported a
+non-zero result code commits none of the callback's effects — for no key does the committed-callback count move —
+although the receive is accepted and (C05) its error acknowledgement is stored. -/
+theorem failed_callback_commits_nothing (env : Env) (c : Chain) (now : UInt64) (pk pf : Bytes) (h : Height) (s : Bytes)
+    (cb : Callback) (hcb : cb.committed = false) (k : Bytes) :
+    cbCount k (deliver env c now (.recvPacket pk pf h s cb)).1 = cbCount k c := by
+  rcases deliver_cbCount env c now (.recvPacket pk pf h s cb) k with he | ⟨_, _, _, cb', hc, hcm⟩
+  · exact he
+  · simp only [callbackOf, Option.some.injEq] at hc
+    subst hc; rw [hcb] at hcm; cases hcm
 
 /-! ### non-vacuity: a concrete environment and history in which a receive is accepted and its replay refused -/
 section Example
